@@ -1,4 +1,4 @@
-HOOK_COMMITS = ["90d925a", "8940632", "5dcbe49", "0243fbe", "56c02d7", "1d7d127", "9681393", "301afe1", "c53dffa", "67987dc", "2fe230a", "be4cb7c", "58c1ed1"]
+HOOK_COMMITS = ["90d925a", "8940632", "5dcbe49", "0243fbe", "56c02d7", "1d7d127", "9681393", "301afe1", "c53dffa", "67987dc", "2fe230a", "be4cb7c", "58c1ed1", "db7e45f", "15dd738", "60f6e04", "5ca7db3", "6c5726d", "77776c2"]
 
 CHAIN_NOTE = ("Assumed: delegation.Loader.GetDelegation is a function of (loader, cid) during one check and returns a non-nil token when err == nil; "
               "time.Now() names one instant per check and After/Before compare abstract instants; fmt.Errorf returns non-nil; "
@@ -70,3 +70,32 @@ CLAIMED["C10"] = dict(
     design="DESIGN.md §3 C10")
 for pid in ["C07","C08","C09","C11","C12","C14","C16","C17","C18","C19"]:
     NOT_APPLICABLE[pid] = "contracts for this property are not registered yet in this tree (work in progress; see DESIGN.md §6 staging)"
+
+STREAM_NOTE = ("Assumed (trusted, stubs/io.spec): the io.Reader / io.Writer protocol; delivered/written and the fault counters failed/wfailed are ghost history variables of the "
+               "interface value whose evolution per call is given by `defines` clauses; go-ipld-prime's streaming codecs consume / produce exactly the bytes their buffered "
+               "counterparts decode / return and report the first read or write error of the stream they are given (refmt latches it; read from the sources); "
+               "sha256 / multihash / cid.NewCidV1 are uninterpreted functions related by one axiom (cid_sum_sha256: V1Builder.Sum is their composition). "
+               "A callee that calls Read/Write of an in-repo wrapper an unknown number of times (DecodeStreaming over a CIDReader, EncodeStreaming over a CIDWriter) is summarised "
+               "by the wrapper's `stream` invariants, which are proved inductive (base and step) from the wrapper's own verified contract.")
+CLAIMED["C08"] = dict(
+    text="Proof: CIDFromBytes and cidFromHash are verified to return cidSum(1, dag-cbor, sha2-256, default length) of the given bytes / of everything absorbed by the hash; "
+         "CIDReader.Read and CIDWriter.Write are verified to absorb exactly the bytes handed through, and their stream invariants carry this across the unknown number of calls a codec makes; "
+         "ToSealed, ToSealedWriter, FromSealed, FromSealedReader (delegation, invocation and the generic token package) are verified to report ucanCid of exactly the sealed bytes written / read, "
+         "so buffered and streaming calls and seal and unseal agree by congruence.",
+    note=STREAM_NOTE + " Not decided here (honest gap): the canonicity clause — dagcbor.Decode is lenient (an assumed contract states only determinism), so two byte strings with the same decoded content "
+         "may both be accepted under different CIDs; toIPLD (envelope construction and signing) is used through a trusted contract naming the sealed node.",
+    design="DESIGN.md §3 C08, §7")
+CLAIMED["C17"] = dict(
+    text="Proof: Reader.addToken is verified to add an entry only under ucanCid(sealed bytes), only after the verifying decoder accepted those bytes, and to leave every other entry untouched; "
+         "FromCborReader is verified (iterator loop invariant) to return all-or-nothing and to have passed every list element through addToken; GetToken/GetDelegation return exactly the stored entry; "
+         "readBlock is verified to accept a CAR block only if its CID equals the prefix-sum of its data; the byte-slice and base64 variants of every reader are verified to be the stream reader over the same (decoded) bytes.",
+    note=STREAM_NOTE + " Trusted contracts on in-repo code (range-over-func iterators are outside the supported subset): FromCarReader and ToCarWriter/writeCar/readCar plumbing; "
+         "the naming of a reader's outcome as a function of the content (determinism of the decoders) is assumed. Byte-level read(write(x)) = x rests on the assumed codec contracts.",
+    design="DESIGN.md §3 C17, §7")
+CLAIMED["C18"] = dict(
+    text="Proof: ghost fault counters on abstract streams quantify over every fault position at once. CIDReader.Read latches every non-EOF error and CIDReader.CID refuses after one; "
+         "FromSealedReader returns a token and CID only for bytes x that the source delivered without a fault, with CID = ucanCid(x) and the token decoded from x (equal to the buffered result by congruence); "
+         "ToSealedWriter / EncodeWriter return nil only if the sink accepted exactly the buffered encoding without a fault; ToCborWriter, ldWrite (loop invariants) and the base64 writers return nil only if no write failed, "
+         "including the final flush of the base64 encoder; ldRead / readBlock return io.EOF only at a section boundary and never after a fault.",
+    note=STREAM_NOTE + " Trusted contracts on in-repo code: FromCarReader, ToCarWriter (range-over-func). Chunking independence is inherited from the assumed codec contract (decode of the delivered prefix).",
+    design="DESIGN.md §3 C18, §7")
